@@ -89,6 +89,92 @@ def facts(trace, at):
     return {'tmo': call['tmo'] if call else None, 'mode': call.get('mode') if call else None}
 
 
+CHILD = ('import sys,time\n'
+         'sys.stdout.write("ready\\n"); sys.stdout.flush()\n'
+         'sys.stdin.readline()\n'
+         'time.sleep(0.3)\n'
+         'sys.stdout.write("middle done\\n"); sys.stdout.flush()\n'
+         'sys.stdin.readline()\n'
+         'time.sleep(0.2)\n'
+         'sys.stdout.write("bye\\n"); sys.stdout.flush()\n')
+
+
+def real_history(args):
+    """one history on a REAL pty child under a REAL asyncio loop: calls made blocking ('S') or awaited ('A') in turn; the
+    wanted output is not yet there when a call starts, so the call has to wait for it"""
+    modes, tmo, enc = args
+    import asyncio, sys, signal
+    import pexpect
+
+    def on_alarm(signum, frame):
+        raise RuntimeError('call did not come back within 20 s')
+    old = signal.signal(signal.SIGALRM, on_alarm)
+    signal.alarm(20)
+    out = []
+    child = None
+    loop = asyncio.new_event_loop()
+    try:
+        child = pexpect.spawn(sys.executable, ['-c', CHILD], echo=False, timeout=5, encoding=enc)
+        pats = ['ready', 'done', 'bye']
+        for i, (mode, pat) in enumerate(zip(modes, pats)):
+            t = 5 if i == 0 else tmo
+            try:
+                if mode == 'A':
+                    idx = loop.run_until_complete(child.expect([pat, pexpect.EOF], timeout=t, async_=True))
+                else:
+                    idx = child.expect([pat, pexpect.EOF], timeout=t)
+                bef = child.before if isinstance(child.before, str) else child.before.decode('latin-1')
+                out.append([idx, bef.replace('\r', ''), str(child.after) if not isinstance(child.after, (str, bytes)) else 'text'])
+            except Exception as e:
+                out.append(['raised', type(e).__name__, str(e)[:120]])
+                break
+            if i < 2:
+                child.sendline('go')
+    except Exception as e:
+        out.append(['harness', type(e).__name__, str(e)[:200]])
+    finally:
+        signal.alarm(0)
+        signal.signal(signal.SIGALRM, old)
+        try:
+            loop.close()
+        except Exception:
+            pass
+        if child is not None:
+            try:
+                child.close(force=True)
+            except Exception:
+                pass
+    return out
+
+
+def real_mixed(ctx):
+    """the same three-call dialogue with every mix of blocking and awaited calls must give what the all-blocking history gives"""
+    from multiprocessing import Pool
+    jobs = []
+    for enc in (None, 'utf-8'):
+        for tmo in (None, 3):
+            for modes in ('SSS', 'AAA', 'ASS', 'SAS', 'AAS', 'SSA', 'ASA', 'SAA'):
+                jobs.append((modes, tmo, enc))
+    with Pool(8) as pool:
+        outs = pool.map(real_history, jobs)
+    ref = {(tmo, enc): o for (modes, tmo, enc), o in zip(jobs, outs) if modes == 'SSS'}
+    nbad = 0
+    for (modes, tmo, enc), o in zip(jobs, outs):
+        want = ref[(tmo, enc)]
+        if o != want:
+            # real processes: once more before it counts
+            o2 = real_history((modes, tmo, enc))
+            w2 = real_history(('SSS', tmo, enc))
+            if o2 != w2:
+                nbad += 1
+                ctx.fail('C14:mixed-history-on-a-real-pty-differs-from-the-blocking-one', {'real_mixed': {'modes': modes, 'timeout': tmo, 'encoding': enc}},
+                         detail={'got': o2, 'blocking_history_gives': w2}, signature={'mode': 'real-mixed', 'tmo': str(tmo)})
+    if not all(len(o) == 3 and o[0][0] == 0 for o in ref.values()):
+        raise tlc.TLCError('real mixed histories: the all-blocking reference did not complete: %s' % list(ref.values())[:1])
+    ctx.note('%d histories on a real pty child under a real asyncio loop (3 calls each, every mix of blocking and awaited, the wanted output '
+             'arriving while the call waits, timeout None / 3 s, bytes / unicode): %d differ from the all-blocking history' % (len(jobs), nbad))
+
+
 def run(ctx):
     if ctx.replay:
         return replay(ctx)
@@ -163,6 +249,7 @@ def run(ctx):
         if v != 'ok':
             clause = v if v.startswith('C14:') else 'C14:awaited-call-differs-from-contract(' + v + ')'
             ctx.fail(clause, {'meta': t['meta']}, detail={'event_index': at, 'events': t['ev'][:at]}, signature=facts(t, at - 1))
+    real_mixed(ctx)
     # binding self-test
     cands = [t for t in uniq if verdicts[t['id']][0] == 'ok'
              and any(e['e'] == 'ret' and e['kind'] == 'match' and e['before'] for e in t['ev'])
